@@ -9,7 +9,16 @@ Inductive call :=
 | CFiles (cwd : list comp) (targets roots lookups : list path)
 | CNamespace (cwd : list comp) (root : path) (lookups : list path).
 
-Inductive obsv := OOk (ids : list ident) | OErr (e : ecls).
+(* ids: the returned types; secs: request_type and response_type of every returned service type *)
+Inductive obsv := OOk (ids : list ident) (secs : list ident) | OErr (e : ecls).
+
+(* the two sections of a service share its version, file and root namespace directory; they have no port-ID and are
+   named <service>.Request / <service>.Response (C15_points_back_sections: this is what CompositeType.__init__ computes) *)
+Definition sections_of_ident (fs : fsys) (i : ident) : list ident :=
+  if file_is_service fs (i_file i)
+  then [mkId (i_name i ++ REQUEST) (i_major i) (i_minor i) None (i_file i) (i_root i);
+        mkId (i_name i ++ RESPONSE) (i_major i) (i_minor i) None (i_file i) (i_root i)]
+  else [].
 
 Record case := mkCase { tree : fsys; calls : list (call * obsv) }.
 
@@ -31,7 +40,7 @@ Definition run_call (fs : fsys) (c : call) : res (list ident) :=
 
 Definition check_call (fs : fsys) (co : call * obsv) : bool :=
   match run_call fs (fst co), snd co with
-  | Ok ids, OOk ids' => same_set ids ids'
+  | Ok ids, OOk ids' secs' => same_set ids ids' && same_set (flat_map (sections_of_ident fs) ids) secs'
   | Err RInvalid, OErr CInvalidDefinition => true
   | Err RValueError, OErr CValueError => true
   | Err ROther, OErr COther => true
